@@ -463,7 +463,7 @@ def cexDb : SearchDb :=
      ("timestamp_ns", .int 172799000000000), ("duration_ns", .int 5)]],
    [[("date", .str (Time.formatDate 172799)), ("key", .str [107]), ("val", .str [118]), ("trace_id", .str [1]),
      ("span_id", .str [2]), ("timestamp_ns", .int 172799000000000), ("duration", .int 5)]]⟩
-def cexOracles : Oracles := ⟨fun _ _ => false, fun _ => [], fun _ => false, fun _ _ _ => false, id, fun _ => 0, fun _ => 0, fun _ _ => [], fun _ _ => []⟩
+def cexOracles : Oracles := { reMatch := fun _ _ => false, jsonLabels := fun _ => [], isNum := fun _ => false, numCmp := fun _ _ _ => false, lower := id }
 
 /-- **idx_only_counterexample.** … and there the results do leave the window: with no tempo_v2 row the counter-pattern
     returns a span 23 hours after the end of a one-second window (same UTC day), which the real plan does not. -/
